@@ -204,7 +204,7 @@ func (o *ProgObs) witness() map[string]interface{} {
 	for i, b := range o.Back {
 		if b != nil {
 			w[bridge.Backend(i).String()] = b.describe()
-			if b.CompErr == nil {
+			if b.CompErr == nil && b.Res.Obs != nil {
 				w[bridge.Backend(i).String()+"_trace"] = traceStr(b.Res.Obs.Trace)
 			}
 		}
